@@ -146,9 +146,13 @@ structure Params where
   checkedAssertions : Bool
   /-- `defaultPluginLogBufferSize` (used when `PluginLogBufferSize == 0`) -/
   defaultBuf : Nat
+  /-- every remaining field of the JSON object becomes a key/value argument of the record: `parseJSON`'s `for k, v := range raw`
+  appends one `logEntryKV` per iteration unconditionally, and `flattenKVPairs` appends key and value of every element
+  unconditionally (no `continue`, no `if` on the value) -/
+  kvAllKept : Bool
   deriving DecidableEq, Repr
 
-def Params.Good (P : Params) : Prop := P.checkedAssertions = true
+def Params.Good (P : Params) : Prop := P.checkedAssertions = true ∧ P.kvAllKept = true
 
 instance (P : Params) : Decidable P.Good := by unfold Params.Good; exact inferInstance
 
@@ -297,5 +301,10 @@ def stderrTakenDuringStart (R : ReaderParams) (lines : Nat) : Nat := if R.readsF
 /-- of the `unread` lines that are still in the stderr pipe when the plugin process exits (its last words), how many the host
 still takes: all of them when the pipe is closed only after the reader is done, none when `runner.Wait` closes it first -/
 def stderrTakenAfterExit (R : ReaderParams) (unread : Nat) : Nat := if R.waitedBeforeProcWait then unread else 0
+
+/-- the keys that reach the record's arguments, of the `keys` the entry has; `skipped k` = the filter a conditional append
+would apply (a nil / zero value, say) -/
+def keptKeys (P : Params) (skipped : Bytes → Bool) (keys : List Bytes) : List Bytes :=
+  if P.kvAllKept then keys else keys.filter (fun k => !skipped k)
 
 end GoPlugin.LogLine
